@@ -318,6 +318,15 @@ pub const EDIT_KINDS: [&str; 15] = [
 /// New name of a rename edit: a fresh name, the old name extended (long names then share a long
 /// prefix), or the old name with the ASCII case of its letters swapped.
 fn renamed(old: &str, fresh: &str, sel: u16) -> String {
+    // one rename in four adds or removes an affix that goes along with a flag by convention of the masterdata
+    // ("obsolete Foo" <-> "Foo"): a comparison that normalises names before comparing them misses exactly these
+    if sel % 12 >= 9 {
+        let (pre, suf) = [("obsolete ", ""), ("obsolete ", ""), ("", " (obsolete)")][(sel % 12 - 9) as usize];
+        if !pre.is_empty() {
+            return old.strip_prefix(pre).filter(|r| !r.trim().is_empty()).map_or_else(|| format!("{pre}{old}"), str::to_string);
+        }
+        return old.strip_suffix(suf).filter(|r| !r.trim().is_empty()).map_or_else(|| format!("{old}{suf}"), str::to_string);
+    }
     match sel % 3 {
         0 => format!("{old}{fresh}"),
         1 if old.chars().any(|c| c.is_ascii_alphabetic()) => old.chars().map(|c| if c.is_ascii_lowercase() { c.to_ascii_uppercase() } else { c.to_ascii_lowercase() }).collect(),
@@ -701,7 +710,7 @@ impl Property for C18 {
         "C18"
     }
     fn rule(&self) -> String {
-        "Generated: a base fact set (the two sides carry equal release versions, or either side the later one; both ontologies built through own v3 / v2 / v1 bytes, the as_bytes round trip or JAX files; obsolete terms, replacements to existing and to non-existing ids, records of all kinds) and an edit script of 0-4 edits out of 15 kinds (rename term, add/remove parent link, flip obsolete, set replacement to an existing / non-existing id, clear replacement, change replacement between two ids that are not terms, add/remove term, add/remove/rename record, add/remove link); one case in thirteen has 34-72 terms and per kind a record directly on >= 31 of them, with links added / removed at the lowest id, the highest id or in between, plus a leaf term with >= 31 direct parents whose parent list is edited the same way. One case in 55 replaces the direct terms of a record by a set of the same size with the same sum and xor, or the same h*31+id / h*33+id / 32-bit FNV value; one case in 27 compares ontologies of which one or both have no terms at all but carry records (Builder: add_gene / add_*_disease only). Oracle: the difference computed on the two fact sets: added/removed id sets per entity kind; changed terms with exact name pair, added/removed parent sets, obsolete pair, replacement id pair; changed records with name pair, added/removed terms, n_terms; every list free of duplicates; compare(new,old) is the mirror image; compare(o,o) reports nothing and compare(o, roundtrip(o)) exactly the names the binary format cuts at 255 bytes (text path: names up to 300 bytes; one rename in three extends the old name, so that long names share a long prefix, one in three only swaps the ASCII case of its letters). evaluations = comparisons. Non-trivial = the two fact sets differ; every edit kind must occur as a single-edit script in a run; distinct by hash of the case.".into()
+        "Generated: a base fact set (the two sides carry equal release versions, or either side the later one; both ontologies built through own v3 / v2 / v1 bytes, the as_bytes round trip or JAX files; obsolete terms, replacements to existing and to non-existing ids, records of all kinds) and an edit script of 0-4 edits out of 15 kinds (rename term, add/remove parent link, flip obsolete, set replacement to an existing / non-existing id, clear replacement, change replacement between two ids that are not terms, add/remove term, add/remove/rename record, add/remove link); one case in thirteen has 34-72 terms and per kind a record directly on >= 31 of them, with links added / removed at the lowest id, the highest id or in between, plus a leaf term with >= 31 direct parents whose parent list is edited the same way. One case in 55 replaces the direct terms of a record by a set of the same size with the same sum and xor, or the same h*31+id / h*33+id / 32-bit FNV value; one case in 27 compares ontologies of which one or both have no terms at all but carry records (Builder: add_gene / add_*_disease only). Oracle: the difference computed on the two fact sets: added/removed id sets per entity kind; changed terms with exact name pair, added/removed parent sets, obsolete pair, replacement id pair; changed records with name pair, added/removed terms, n_terms; every list free of duplicates; compare(new,old) is the mirror image; compare(o,o) reports nothing and compare(o, roundtrip(o)) exactly the names the binary format cuts at 255 bytes (text path: names up to 300 bytes; one rename in three extends the old name, so that long names share a long prefix, one in three only swaps the ASCII case of its letters, one in four adds or removes the affix 'obsolete ' / ' (obsolete)'). evaluations = comparisons. Non-trivial = the two fact sets differ; every edit kind must occur as a single-edit script in a run; distinct by hash of the case.".into()
     }
     fn assumptions(&self) -> Vec<String> {
         vec!["'replacement' of a term is the replacement id stored with it (replacement_id), whether or not that id is a term of the same ontology".into()]
